@@ -8,3 +8,6 @@ import J1939.Props.C01
 #print axioms J1939.Props.C01.c01_ack_reported
 #print axioms J1939.Props.C01.c01_bam_originator_frames
 #print axioms J1939.Props.C01.c01_bam_end_to_end
+#print axioms J1939.Props.C01.c01_tp_dispatch
+#print axioms J1939.Props.C01.c01_rtscts_round
+#print axioms J1939.Props.C01.c01_rtscts_end_to_end
